@@ -815,6 +815,8 @@ def check_C18(ctx, tier, seed):
     for cfg in ALLOC_CONFIGS:
         alloc_world(ctx, vd, cfg, bins[cfg], 48 if quick else 512, 1500 if quick else 20000, hard=False)
         alloc_world(ctx, vd, cfg, bins[cfg], 16 if quick else 128, 1500 if quick else 20000, hard=True)
+        # several real threads of one process inside the core operations at the same time (contended process-wide state)
+        sim_batch_procs(ctx, vd, cfg, bins[cfg], "c18mt", 16000 if quick else 640000, procs=8)
     nostd_builds(ctx, vd, NOSTD_FEATURE_SETS if not quick else NOSTD_FEATURE_SETS[:12])
     vd.extra["grid"] = "states = (variant, op kind [14], first call of that kind in the run?) -> 5 x 18 x 2 = 180 cells per build; see distinct_states"
     vd.extra["components_real"] = ["every core operation of fast-tlsh (new/update/finalize/processed_len/clone/from_str_bytes/TryFrom/store_*/compare/max_distance/clear_checksum/accessors/quartile), incl. first (dispatch-initialising) calls in fresh processes and on fresh threads"]
@@ -960,19 +962,24 @@ def check_C11(ctx, tier, seed):
     n = 60_000 if tier == "quick" else 1_000_000
     # one REAL stream in every run, started first so that it overlaps with the batches: a single update() call with a
     # slice longer than u32::MAX (a lazily mapped zero buffer) -- the only way to reach the length conversion of one huge piece
-    side = ThreadPoolExecutor(max_workers=2)
+    side = ThreadPoolExecutor(max_workers=3)
     side_job = side.submit(lambda: run_sim(ctx, bins["hooked"], ["bigstream", "--variant", seed % 5, "--pattern", "00", "--seed", 1,
                                                                 "--single-slice", (1 << 32) + 1000 + seed % 7])[1])
     # ... and one single slice of exactly 4,224,281,216 bytes (> 1 GiB, > 2^31, not a multiple of any power-of-two block):
     # every byte of it must be counted, the result must be the reference hash with length code 169
+    # ... and one generated stream of MAX + 1 bytes through the stream helper (the limit must also hold when the bytes arrive through hash_stream*)
+    side_job3 = side.submit(lambda: run_sim(ctx, bins["hooked"], ["bigreader", "--variant", (seed + 1) % 5, "--pattern", "5a", "--seed", seed, "--total", 4224281217])[1])
     side_job2 = side.submit(lambda: run_sim(ctx, bins["hooked"], ["bigstream", "--variant", (seed + 3) % 5, "--pattern", "00", "--seed", 1,
                                                                  "--single-slice", 4224281216])[1])
-    sim_batch(ctx, vd, "hooked", bins["hooked"], "c11", n)
-    sim_batch(ctx, vd, "hooked_dbg", bins["hooked_dbg"], "c11", n // 4)
+    # single-threaded processes: every history also draws a simulated CPU, so each backend's quartile / body code meets
+    # the bucket counts that only multi-GiB inputs produce
+    sim_batch_procs(ctx, vd, "hooked", bins["hooked"], "c11", n)
+    sim_batch_procs(ctx, vd, "hooked_dbg", bins["hooked_dbg"], "c11", n // 4)
     sim_batch(ctx, vd, "hooked", bins["hooked"], "c11small", n)
     sim_batch(ctx, vd, "hooked_dbg", bins["hooked_dbg"], "c11small", n // 4)
     vd.add("hooked", side_job.result())
     vd.add("hooked", side_job2.result())
+    vd.add("hooked", side_job3.result())
     if tier != "quick":
         # real multi-GiB streams (works with the guard off, too; with it on, the internal state is compared with the model's jump)
         import random
